@@ -142,6 +142,8 @@ def rel_diff(X, Y, scale=None):
 def form_residual(S, J):
     """max |S^T J S - J| / max(1, |S|^2) over the stack."""
     S = as_numeric(S)
+    if S.size == 0:
+        return 0.0
     R = np.swapaxes(S, -1, -2) @ J @ S - J
     return float(np.max(mnorm(R) / np.maximum(1.0, mnorm(S) ** 2)))
 
@@ -152,6 +154,8 @@ def eq_up_to_sign(X, Y):
     Y = as_numeric(Y)
     if X.shape != Y.shape:
         return float("inf")
+    if X.size == 0:
+        return 0.0
     d = np.minimum(mnorm(X - Y), mnorm(X + Y))
     return float(np.max(d / np.maximum(1.0, mnorm(Y))))
 
